@@ -14,6 +14,8 @@ set_option linter.unusedVariables false
 theorem C09_be64_lt (a b : Nat) (ha : a < 2^64) (hb : b < 2^64) :
     lexLt (Bytes.be64 a) (Bytes.be64 b) = true ↔ a < b := be64_lt a b ha hb
 
+-- AUDIT: the hypotheses can only hold together when `a = b` (that is the conclusion), so every instance
+-- is "degenerate" by design; `Ex` shows one, and that the bounds are needed (`be64` wraps at 2^64).
 theorem C09_be64_inj (a b : Nat) (ha : a < 2^64) (hb : b < 2^64)
     (h : Bytes.be64 a = Bytes.be64 b) : a = b := be64_inj a b ha hb h
 
@@ -475,5 +477,168 @@ theorem C09_reopen_view (s : Store) (p : Bool) (h : WF s) (i : Nat) (hi : i < 2^
   cases p with
   | false => rfl
   | true => exact C09_convert_view ⟨s.kv, true⟩ h i hi
+
+/-! ## non-vacuity -/
+
+namespace Ex
+
+/-- a command whose id is absent (0): the reader defaults it to the raft index -/
+def m1 : RMsg := ⟨0, 0, 7, 1, 6, [80, 73, 78, 71], 1700000000000000000, [], [], 99, 0, []⟩
+def m2 : RMsg := ⟨6, 0, 7, 2, 6, [74, 79, 73, 78], 1700000001000000000, [], [], 100, 0, []⟩
+def e5 : LogEntry := ⟨5, 2, 0, .msg .json m1, [], 1700000000, 5⟩
+def e6 : LogEntry := ⟨6, 2, 0, .msg .json m2, [], 1700000001, 0⟩
+/-- a raft-internal entry (type 1) with an opaque payload -/
+def e7 : LogEntry := ⟨7, 3, 1, .raw [1, 2], [], 1700000002, 0⟩
+/-- a second write to index 7 (same batch: the later one wins) -/
+def e7b : LogEntry := ⟨7, 4, 1, .raw [3], [], 1700000003, 0⟩
+def e9 : LogEntry := ⟨9, 4, 0, .msg .proto m2, [], 1700000004, 0⟩
+
+/-- "CurrentTerm" / "LastVoteCand" / "LastVoteTerm" -/
+def kTerm : Bytes := [67, 117, 114, 114, 101, 110, 116, 84, 101, 114, 109]
+def kCand : Bytes := [76, 97, 115, 116, 86, 111, 116, 101, 67, 97, 110, 100]
+def kVoteTerm : Bytes := [76, 97, 115, 116, 86, 111, 116, 101, 84, 101, 114, 109]
+
+/-- a legacy (JSON) store holding two stable keys and the log entries 5, 6, 7 -/
+def s0 : Store :=
+  (((Store.empty false).setUint64 kTerm 3).set kCand [110, 49]).storeLogs [e5, e7, e6, e7b]
+
+/-- the invariant of the populated store, obtained by running the operations -/
+theorem wf0 : WF s0 :=
+  C09_wf_storeLogs _ _ (C09_wf_set _ _ _ (C09_wf_set _ _ _ (C09_wf_empty false))) (by decide)
+
+/-- the database really holds five keys: three log keys first, then two stable keys -/
+example : s0.kv.map (·.1) = [be64 5, be64 6, be64 7, stablePrefix ++ kTerm, stablePrefix ++ kCand] := by decide
+
+/-- a store holding only stable keys -/
+def sStable : Store := ((Store.empty false).setUint64 kTerm 3).set kCand [110, 49]
+theorem wfStable : WF sStable := C09_wf_set _ _ _ (C09_wf_set _ _ _ (C09_wf_empty false))
+theorem stable_no_logs : ∀ i, i < 2^64 → logView sStable i = none := by
+  intro i _
+  show logView (((Store.empty false).set kTerm (be64 3)).set kCand [110, 49]) i = none
+  rw [C09_set_log _ _ _ (C09_wf_set _ _ _ (C09_wf_empty false)), C09_set_log _ _ _ (C09_wf_empty false)]
+  rfl
+
+/-! keys -/
+
+example : lexLt (be64 255) (be64 256) = true := (C09_be64_lt 255 256 (by decide) (by decide)).2 (by decide)
+example : (255 : Nat) < 4294967296 := (C09_be64_lt 255 4294967296 (by decide) (by decide)).1 (by decide)
+/-- `C09_be64_inj`: its three hypotheses can only hold together when `a = b` (that is the statement); an
+instance with syntactically different arguments … -/
+example : 2 + 3 = 5 := C09_be64_inj (2 + 3) 5 (by decide) (by decide) (by decide)
+/-- … and the bounds are needed: beyond 64 bits the encoding wraps around -/
+example : be64 (18446744073709551616 + 5) = be64 5 := by decide
+
+/-! invariant -/
+
+example : WF (s0.storeLogProto e9) := C09_wf_storeLogProto s0 e9 wf0 (by decide)
+example : WF (s0.storeLogs [e9, e5]) := C09_wf_storeLogs s0 [e9, e5] wf0 (by decide)
+example : WF (s0.deleteRange 6 7) := C09_wf_deleteRange s0 6 7 wf0
+example : WF (s0.set kVoteTerm (be64 2)) := C09_wf_set s0 kVoteTerm (be64 2) wf0
+
+/-! reads -/
+
+example : s0.getLog 6 = (match logView s0 6 with | some e => .ok e | none => .error .notFound) :=
+  C09_getLog s0 6 wf0 (by decide)
+example : logView s0 6 = some e6 ∧ logView s0 7 = some e7b ∧ logView s0 8 = none := by decide
+example : s0.getLog 6 = .ok e6 := (C09_getLog s0 6 wf0 (by decide)).trans rfl
+example : s0.getLog 8 = .error .notFound := (C09_getLog s0 8 wf0 (by decide)).trans rfl
+example : s0.get kCand = .ok (some [110, 49]) := (C09_get s0 kCand wf0).trans rfl
+example : s0.get kVoteTerm = .ok none := (C09_get s0 kVoteTerm wf0).trans rfl
+
+/-! writes -/
+
+example : logView (s0.storeLogProto e9) 9 = some e9 :=
+  (C09_storeLogProto_view s0 e9 wf0 (by decide) 9 (by decide)).trans rfl
+example : logView (s0.storeLogProto e9) 5 = some e5 :=
+  (C09_storeLogProto_view s0 e9 wf0 (by decide) 5 (by decide)).trans (by decide)
+example : stableView (s0.storeLogProto e9) kTerm = some (be64 3) :=
+  (C09_storeLogProto_stable s0 e9 wf0 kTerm).trans (by decide)
+
+/-- a batch that writes index 7 twice and overwrites the stored entry 5 -/
+example : logView (s0.storeLogs [e7, e9, e7b, { e5 with term := 8 }]) 7 = some e7b :=
+  (C09_storeLogs_view s0 _ wf0 (by decide) 7 (by decide)).trans (by decide)
+example : logView (s0.storeLogs [e7, e9, e7b, { e5 with term := 8 }]) 5 = some { e5 with term := 8 } :=
+  (C09_storeLogs_view s0 _ wf0 (by decide) 5 (by decide)).trans (by decide)
+example : logView (s0.storeLogs [e7, e9, e7b, { e5 with term := 8 }]) 6 = some e6 :=
+  (C09_storeLogs_view s0 _ wf0 (by decide) 6 (by decide)).trans (by decide)
+example : stableView (s0.storeLogs [e7, e9]) kCand = some [110, 49] :=
+  (C09_storeLogs_stable s0 _ wf0 kCand).trans (by decide)
+
+example : stableView (s0.set kCand [110, 50]) kCand = some [110, 50] :=
+  (C09_set_view s0 kCand [110, 50] wf0 kCand).trans (by decide)
+example : stableView (s0.set kCand [110, 50]) kTerm = some (be64 3) :=
+  (C09_set_view s0 kCand [110, 50] wf0 kTerm).trans (by decide)
+example : logView (s0.set kCand [110, 50]) 6 = some e6 := (C09_set_log s0 kCand [110, 50] wf0 6).trans (by decide)
+
+example : (s0.setUint64 kTerm 4).getUint64 kTerm = .ok 4 := C09_uint64_roundtrip s0 kTerm 4 wf0 (by decide)
+/-- reading back the value stored when `s0` was built -/
+example : s0.getUint64 kTerm = .ok 3 := rfl
+example : s0.getUint64 kVoteTerm = .ok 0 := C09_getUint64_missing s0 kVoteTerm wf0 (by decide)
+
+/-! `DeleteRange` -/
+
+example : logView (s0.deleteRange 6 7) 6 = none :=
+  (C09_deleteRange_view s0 6 7 wf0 (by decide) (by decide) 6 (by decide)).trans (by decide)
+example : logView (s0.deleteRange 6 7) 5 = some e5 :=
+  (C09_deleteRange_view s0 6 7 wf0 (by decide) (by decide) 5 (by decide)).trans (by decide)
+/-- the upper bound `MaxUint64` (no `max+1`) -/
+example : logView (s0.deleteRange 6 18446744073709551615) 7 = none :=
+  (C09_deleteRange_view s0 6 18446744073709551615 wf0 (by decide) (by decide) 7 (by decide)).trans (by decide)
+example : stableView (s0.deleteRange 0 18446744073709551615) kTerm = some (be64 3) :=
+  (C09_deleteRange_stable s0 0 18446744073709551615 wf0 kTerm).trans (by decide)
+
+/-! first / last index -/
+
+/-- no log entries, but a non-empty database (stable keys only) -/
+example : sStable.firstIndex = .ok 0 := C09_firstIndex sStable wfStable stable_no_logs
+example : sStable.lastIndex = .ok 0 := C09_lastIndex sStable wfStable stable_no_logs
+example : sStable.kv.length = 2 := by decide
+
+/-- the same after every entry of the populated store was deleted -/
+theorem deleted_no_logs : ∀ i, i < 2^64 → logView (s0.deleteRange 0 18446744073709551615) i = none := by
+  intro i hi
+  rw [C09_deleteRange_view s0 0 18446744073709551615 wf0 (by decide) (by decide) i hi, if_pos (by omega)]
+example : (s0.deleteRange 0 18446744073709551615).firstIndex = .ok 0 :=
+  C09_firstIndex _ (C09_wf_deleteRange s0 _ _ wf0) deleted_no_logs
+example : (s0.deleteRange 0 18446744073709551615).lastIndex = .ok 0 :=
+  C09_lastIndex _ (C09_wf_deleteRange s0 _ _ wf0) deleted_no_logs
+
+example : ∃ n, s0.firstIndex = .ok n ∧ n ≤ 6 ∧ (logView s0 n).isSome ∧
+    ∀ j, j < 2^64 → (logView s0 j).isSome → n ≤ j :=
+  C09_firstIndex_least s0 wf0 6 (by decide) e6 (by decide)
+example : ∃ n, s0.lastIndex = .ok n ∧ 6 ≤ n ∧ (logView s0 n).isSome ∧
+    ∀ j, j < 2^64 → (logView s0 j).isSome → j ≤ n :=
+  C09_lastIndex_greatest s0 wf0 6 (by decide) e6 (by decide)
+/-- the scans skip the stable keys (which sort *after* the log keys) and find 5 and 7 -/
+example : s0.firstIndex = .ok 5 ∧ s0.lastIndex = .ok 7 := ⟨rfl, rfl⟩
+
+/-! bulk iterator -/
+
+example : be64 6 ∈ s0.bulkKeys 6 8 :=
+  (C09_bulk_log_mem s0 6 8 6 (by decide) (by decide) (by decide)).2 ⟨⟨.log .json e6, by decide⟩, by decide, by decide⟩
+example : be64 5 ∉ s0.bulkKeys 6 8 := fun h =>
+  absurd ((C09_bulk_log_mem s0 6 8 5 (by decide) (by decide) (by decide)).1 h).2.1 (by decide)
+example : s0.bulkKeys 6 8 = [be64 6, be64 7] := by decide
+example : be64 6 ∉ s0.bulkKeys 8 6 := C09_bulk_empty s0 8 6 6 (by decide) (by decide) (by decide) (by decide)
+example : be64 6 ∉ s0.bulkKeys 6 6 := C09_bulk_empty s0 6 6 6 (by decide) (by decide) (by decide) (by decide)
+
+/-! conversion and reopen -/
+
+example : (logView s0.convertToProto 5).map LogEntry.sem = (logView s0 5).map LogEntry.sem :=
+  C09_convert_view s0 wf0 5 (by decide)
+/-- the conversion really rewrites the entry (new encoding, id defaulted to the index), so the
+equality above is not an equality of identical stores -/
+example : logView s0.convertToProto 5 = some { e5 with data := .msg .proto { m1 with id := 5 } } ∧
+    logView s0.convertToProto 5 ≠ logView s0 5 ∧
+    s0.convertToProto.kv.map (·.2) ≠ s0.kv.map (·.2) := by decide
+example : stableView s0.convertToProto kCand = some [110, 49] := (C09_convert_stable s0 wf0 kCand).trans (by decide)
+example : WF s0.convertToProto := C09_wf_convert s0 wf0
+example : (logView (s0.reopen true) 6).map LogEntry.sem = (logView s0 6).map LogEntry.sem :=
+  C09_reopen_view s0 true wf0 6 (by decide)
+example : logView (s0.reopen true) 6 = some { e6 with data := .msg .proto m2 } := by decide
+example : (logView (s0.reopen false) 6).map LogEntry.sem = (logView s0 6).map LogEntry.sem :=
+  C09_reopen_view s0 false wf0 6 (by decide)
+
+end Ex
 
 end Robust.Props.C09
